@@ -22,6 +22,7 @@ import (
 	"encoding/binary"
 	"encoding/json"
 	"fmt"
+	"os"
 	"sort"
 	"strings"
 	"testing"
@@ -148,6 +149,12 @@ func checkOutcomes(m *Model, s *Snap, k int) error {
 			if got == e.Commit {
 				continue
 			}
+			if e.Commit && a.Base >= ps.LSO && lsoHeldByOngoing(s, ps) {
+				// not delivered YET: an earlier transaction of another producer is
+				// still open (restored as Ongoing) and holds the last stable offset
+				ev.Class("committed_records_behind_an_ongoing_transaction")
+				continue
+			}
 			what := "EndTxn(commit) was acknowledged, but the records are NOT delivered to a read_committed consumer"
 			if !e.Commit {
 				what = "EndTxn(abort) was acknowledged, but the records ARE delivered to a read_committed consumer"
@@ -157,6 +164,38 @@ func checkOutcomes(m *Model, s *Snap, k int) error {
 		}
 	}
 	return nil
+}
+
+// lsoHeldByOngoing: the last stable offset of the partition is the first offset
+// of a transaction without a control batch whose producer id has a transaction
+// in state Ongoing.
+func lsoHeldByOngoing(s *Snap, ps *PartSnap) bool {
+	ongoing := map[int64]bool{}
+	for _, x := range s.Txns {
+		if x.State == "Ongoing" {
+			ongoing[x.PID] = true
+		}
+	}
+	open := map[int64]int64{}
+	for _, b := range ps.Batches {
+		attrs := binary.BigEndian.Uint16(b[21:23])
+		pid := int64(binary.BigEndian.Uint64(b[43:51]))
+		first, _ := batchRange(b)
+		switch {
+		case attrs&0x20 != 0:
+			delete(open, pid)
+		case attrs&0x10 != 0:
+			if _, ok := open[pid]; !ok {
+				open[pid] = first
+			}
+		}
+	}
+	for pid, first := range open {
+		if first == ps.LSO && ongoing[pid] {
+			return true
+		}
+	}
+	return false
 }
 
 // produceAfterRecovery sends one plain record to every partition of the
@@ -436,9 +475,29 @@ func historyFail(t tb, h History, desc string, err error) {
 	if isInfra(err) {
 		infra(t, err)
 	}
-	raw, _ := json.Marshal(h)
-	ev.Replay("c33-history-"+h.Name+".txt", fmt.Sprintf("%s\n%s\n%v", raw, desc, err))
-	t.Fatalf("C33 violated: %v\nhistory %s", err, desc)
+	raw, _ := json.Marshal(historyReplay{History: &h})
+	path := ev.Replay("c33-history-"+h.Name+".jsonl", fmt.Sprintf("%s\n%s\n%v", raw, desc, err))
+	t.Fatalf("C33 violated: %v\nhistory %s\nreplay file: %s", err, desc, path)
+}
+
+// historyReplay is line 1 of the replay file of a violation found while a
+// history was being executed (not at a crash case of one session): the replay
+// executes the history again and enumerates its last session.
+type historyReplay struct {
+	History *History `json:"history"`
+}
+
+func loadHistoryReplay(path string) *History {
+	raw, err := os.ReadFile(path)
+	if err != nil {
+		return nil
+	}
+	line, _, _ := bytes.Cut(raw, []byte("\n"))
+	var hr historyReplay
+	if json.Unmarshal(line, &hr) != nil || hr.History == nil || len(hr.History.Sessions) == 0 {
+		return nil
+	}
+	return hr.History
 }
 
 // segmentAppends classifies what a session did to the segment files it found:
@@ -759,6 +818,7 @@ func TestSessions(t *testing.T) {
 		}
 		enumerateLast(t, e, allBytes)
 	}
+	ev.Exhaustive(true)
 }
 
 // genHistory draws a valid workload (genScript) and cuts it into 2-3 sessions.
@@ -785,7 +845,10 @@ func genHistory(t *rapid.T) History {
 	for i := 0; i < len(h.Sessions)-1; i++ {
 		if rapid.Bool().Draw(t, "crash") {
 			h.Sessions[i].End = Ending{
-				Crash:   true,
+				Crash: true,
+				// half of the crashes inside a request, the rest anywhere (startup,
+				// recovery, requests, readback, clean Close)
+				Step:    rapid.IntRange(-len(h.Sessions[i].Steps), len(h.Sessions[i].Steps)).Draw(t, "step"),
 				K:       rapid.IntRange(0, 1<<20).Draw(t, "k"),
 				Dirty:   rapid.IntRange(0, 3).Draw(t, "wantDirty") > 0,
 				Choices: rapid.SliceOfN(rapid.IntRange(0, 1<<20), 4, 4).Draw(t, "cut"),
